@@ -188,7 +188,14 @@ def rule_removal(run, F, cfg):
                 tup.append([c.expr_operand(o) for o in st["rv"]["ops"]])
     run.ob("C14.3.removal-condition", "include-starts-true", tup == [["arg:param", "true"]],
            f"every parsed parameter starts as (param, true), i.e. kept ({tup})", config=cfg)
-    rw = [l for l, nme in f.varnames.items() if nme == "rewrite"]
+    # the flag, by role: the captured boolean that the removal closure sets to true
+    flag = None
+    for c in cls:
+        for b, i, st in c.statements():
+            if st["k"] == "assign" and st["rv"]["k"] == "use" and st["rv"]["op"].get("k") == "const" and st["pl"]["p"] \
+                    and c.expr_operand(st["rv"]["op"]) == "true" and c.expr_place(st["pl"]).startswith("up:"):
+                flag = c.expr_place(st["pl"])[3:]
+    rw = [l for l, nme in f.varnames.items() if nme == flag]
     inits = []
     for b, i, st in f.statements():
         if st["k"] == "assign" and not st["pl"]["p"] and rw and st["pl"]["l"] == rw[0]:
@@ -203,7 +210,7 @@ def rule_removal(run, F, cfg):
             if st["k"] != "assign" or st["rv"]["k"] != "use" or st["rv"]["op"].get("k") != "const" or not st["pl"]["p"]:
                 continue
             tgt, val = c.expr_place(st["pl"]), c.expr_operand(st["rv"]["op"])
-            if tgt == "up:rewrite":
+            if tgt == "up:" + str(flag):
                 rw_blocks.append((b, val))
             elif val in ("true", "false"):
                 inc_blocks.append((b, val))
